@@ -307,9 +307,69 @@ func rulesC19(e *Engine, r *Report) {
 						"a tag is chosen for a group its pattern does not match", 1, v)
 				}
 				r.Min("R19.4", "tag-returning path classes of the tagger", nT, 1)
-				// first match wins: the loop returns inside the iteration (no later overwrite)
-				st := e.findInstrs(tagger, "store(§)", false)
-				_ = st
+				// ---------------------------------------------------------------- R19.5
+				r.Rule("R19.5", "queue and broker resolve a file to the same tag, and the resolution is stable: the sorting queue gets (tagger, grouper), the broker's Tagger is tagger∘grouper over the same two closures; because the grouper falls back to tagger(name) - a tag NAME used as group - the tagger must map a tag's own name back to that tag: its loop moves past a tag that has a pattern only when the group is neither equal to the tag's name nor matched by its pattern")
+				var grouper *ssa.Function
+				for _, cf := range initFn.AnonFuncs {
+					if len(e.findInstrs(cf, "call(regexp.(*Regexp).FindStringSubmatch)(§.GroupBy, p0)", false)) > 0 && len(cf.Params) == 1 {
+						grouper = cf
+					}
+				}
+				if grouper == nil {
+					r.Unresolved("R19.5", "the closure of "+e.ShortName(initFn)+" that derives a group from a file name (GroupBy)")
+				} else {
+					tg, gp := "closure("+e.ShortName(tagger)+")", "closure("+e.ShortName(grouper)+")"
+					nq := e.findInstrs(initFn, "call(queue.NewTagged)(§, "+tg+", "+gp+")", false)
+					r.Check(len(nq) == 1, "R19.5", e.ShortName(initFn)+": queue.NewTagged(tags, tagger, grouper)", e.Pos(initFn.Pos()), "the sorting queue is not built from the tagger and grouper closures (in that order)", 1)
+					tv := e.fieldStoreVals(initFn, "client.Conf", "Tagger")
+					okT := false
+					if len(tv) == 1 {
+						for _, cf := range initFn.AnonFuncs {
+							if "closure("+e.ShortName(cf)+")" != tv[0] {
+								continue
+							}
+							for _, rw := range e.returnWorlds(r, "R19.5", cf, labeler()) {
+								okT = e.Canon(rw.In.(*ssa.Return).Results[0]) == "dyn(^"+tg+")(dyn(^"+gp+")(p0))"
+							}
+						}
+					}
+					r.Check(okT, "R19.5", e.ShortName(initFn)+": client.Conf.Tagger = tagger∘grouper", e.Pos(initFn.Pos()), "the broker does not resolve a file name with the same tagger and grouper as the queue: "+strings.Join(tv, " | "), 1, tv...)
+					fallback := e.findInstrs(grouper, "dyn(^"+tg+")(p0)", false)
+					usesTagAsGroup := false
+					for _, in := range fallback {
+						if v, ok := in.(ssa.Value); ok && flowsToReturn(v) {
+							usesTagAsGroup = true
+						}
+					}
+					if ms := e.findInstrs(tagger, "call(regexp.(*Regexp).MatchString)(§.Pattern, p0)", false); len(ms) >= 1 {
+						_, backs := innermostLoop(ms[0])
+						nb := 0
+						for _, bi := range backs {
+							b := bi.Block()
+							conds := e.domConds(b)
+							if t, ok := bi.(*ssa.If); ok {
+								hdr, _ := innermostLoop(ms[0])
+								for si, pol := range []bool{true, false} {
+									if b.Succs[si] == hdr && b.Succs[1-si] != hdr {
+										conds = append(conds, e.CondStr(t.Cond, pol))
+									}
+								}
+							}
+							if !hasStr(conds, "(§.Pattern != nil)") {
+								continue
+							}
+							nb++
+							nameDiffers := hasStr(conds, "(§[§].Name != p0)") || hasStr(conds, "(p0 != §[§].Name)")
+							need := hasStr(conds, "!call(regexp.(*Regexp).MatchString)(§.Pattern, p0)") && (nameDiffers || !usesTagAsGroup)
+							r.Check(need, "R19.5", fmt.Sprintf("%s: next tag only if neither the name equals nor the pattern matches (b%d)", e.ShortName(tagger), b.Index), e.InstrPos(bi),
+								"the tagger passes over a tag although the group is that tag's own name (the grouper's fallback hands tag names back in: files of that tag end up under no tag or the default tag's settings) or its pattern matches", 1, conds...)
+						}
+						r.Min("R19.5", "ways the tagger loop moves on past a tag with a pattern", nb, 1)
+					} else {
+						r.Unresolved("R19.5", "pattern match in the tagger")
+					}
+					r.Check(len(fallback) <= 1, "R19.5", e.ShortName(grouper)+": fallback group is tagger(name)", e.Pos(grouper.Pos()), "several tagger calls in the grouper", 1, fmt.Sprint("tag name used as group: ", usesTagAsGroup))
+				}
 			}
 		}
 	}
